@@ -375,6 +375,7 @@ type KnownFinding struct {
 	Observed    string          `json:"observed,omitempty"`
 	WhyNotFixed string          `json:"why_not_fixed,omitempty"`
 	Fixed       bool            `json:"fixed,omitempty"`
+	Also        []string        `json:"also_properties,omitempty"`
 	Commit      string          `json:"commit,omitempty"`
 	What        string          `json:"what,omitempty"`
 }
@@ -403,10 +404,13 @@ func cmdCheck(prop, tier string) int {
 	start := time.Now()
 	*flagCanary = true
 	timeout := *flagTimeout
-	if tier == "thorough" {
-		timeout = 120
-	}
 	sel := map[string]bool{prop: true}
+	if tier == "thorough" {
+		// thorough: four times the solver budget, and the selected functions are checked against every clause
+		// of their contracts (all properties), not only the clauses tagged with this property
+		timeout = 120
+		sel = nil
+	}
 	var all []*Obligation
 	var undecided []string
 	var functions []string
@@ -512,6 +516,9 @@ func cmdCheck(prop, tier string) int {
 		return 2
 	}
 	solveAll(all, dir, timeout)
+	if tier == "thorough" && *flagOnly == "" {
+		all = append(all, witnessRegression(prop)...)
+	}
 	return report(prop, tier, all, functions, trusted, imprecise, files, lemmaCount, time.Since(start).Seconds())
 }
 
@@ -668,4 +675,40 @@ func realPath(p string) string {
 		}
 	}
 	return p
+}
+
+// witnessRegression (thorough tier): the recorded input of every repaired finding of this property is run
+// again on the real code; it must no longer fail. A failure is reported as a violation with that input.
+func witnessRegression(prop string) []*Obligation {
+	var out []*Obligation
+	for _, kf := range loadKnown() {
+		if !kf.Fixed || len(kf.Witness) == 0 {
+			continue
+		}
+		mine := kf.Property == prop
+		for _, a := range kf.Also {
+			if a == prop {
+				mine = true
+			}
+		}
+		if !mine {
+			continue
+		}
+		var w Witness
+		if json.Unmarshal(kf.Witness, &w) != nil || w.Body == "" {
+			continue
+		}
+		r := runWitness(&w)
+		o := &Obligation{Name: "witness/W/" + kf.Commit + ":" + w.Input, Class: "W", Func: "witness", Pos: "known_findings.json", Props: []string{prop},
+			Goal: "true", Src: "the input of the finding repaired by " + kf.Commit + " must not fail again: " + kf.What}
+		if r.Reproduced {
+			o.Result = &SolveResult{Status: "sat", Solver: "go test", Output: r.Output, Outputs: map[string]string{"go test": r.Output}}
+			o.witness = &w
+			o.witnessOut = r
+		} else {
+			o.Result = &SolveResult{Status: "unsat", Solver: "go test", Output: r.Output}
+		}
+		out = append(out, o)
+	}
+	return out
 }
